@@ -16,8 +16,10 @@ open Ivg Ivg.Num Ivg.Gen
 
 /-! ## `b[i]` on a list -/
 
+tolerant
 theorem decAux_sliceGet_zero {T} [Inhabited T] (x : T) (l : List T) : Go.sliceGet (x :: l) 0 = x := rfl
 
+tolerant
 theorem decAux_sliceGet_succ {T} [Inhabited T] (x : T) (l : List T) (i : Nat) :
     Go.sliceGet (x :: l) (i + 1) = Go.sliceGet l i := by
   simp [Go.sliceGet]
@@ -35,6 +37,7 @@ def decResOf {α β : Type} (f : α → β) (zero : β) (b : Bytes) : Option (α
 def decResTo {β : Type} (b : Bytes) (r : β × Int) : Option (β × Bytes) :=
   if r.2 = 0 then none else some (r.1, b.drop r.2.toNat)
 
+tolerant
 /-- `decResTo` inverts `decResOf` on results whose remaining bytes are a proper suffix `b.drop n`, `0 < n ≤ len b`. -/
 theorem decResTo_decResOf {α β : Type} (f : α → β) (zero : β) (b : Bytes) (r : Option (α × Bytes))
     (hr : ∀ v rest, r = some (v, rest) → ∃ n, 0 < n ∧ n ≤ b.length ∧ rest = b.drop n) :
@@ -49,6 +52,7 @@ theorem decResTo_decResOf {α β : Type} (f : α → β) (zero : β) (b : Bytes)
 
 /-! ## all 256 bytes -/
 
+tolerant
 theorem decAux_forall_uint8_iff {p : UInt8 → Prop} :
     (∀ x, p x) ↔ ∀ i : Fin 256, p (UInt8.ofNat i.val) := by
   constructor
@@ -66,20 +70,25 @@ attribute [local instance] decAuxForallUInt8
 /-! ## the bit arithmetic of `decodeNatural` -/
 
 set_option maxRecDepth 100000 in
+tolerant
 /-- `x&0x01 == 0` -/
 theorem decAux_and1 : ∀ x : UInt8, (x &&& 1 = 0) ↔ (x.toNat % 2 = 0) := by decide +kernel
 
 set_option maxRecDepth 100000 in
+tolerant
 /-- `x&0x02 == 0` -/
 theorem decAux_and2 : ∀ x : UInt8, (x &&& 2 = 0) ↔ (x.toNat / 2 % 2 = 0) := by decide +kernel
 
 set_option maxRecDepth 100000 in
+tolerant
 /-- `uint32(x) >> 1` -/
 theorem decAux_nat1 : ∀ x : UInt8, Go.cvt_u8_u32 x >>> 1 = UInt32.ofNat (x.toNat / 2) := by decide +kernel
 
+tolerant
 theorem decAux_or8 (x y : Nat) (hx : x < 256) : x ||| y <<< 8 = x + y * 256 := by
   rw [Nat.or_comm, ← Nat.shiftLeft_add_eq_or_of_lt (i := 8) (by omega), Nat.shiftLeft_eq]; omega
 
+tolerant
 /-- `uint32(uint16(b[0]) | uint16(b[1])<<8) >> 2` -/
 theorem decAux_nat2 (x y : UInt8) :
     Go.cvt_u16_u32 (Go.cvt_u8_u16 x ||| Go.cvt_u8_u16 y <<< 8) >>> 2
@@ -94,6 +103,7 @@ theorem decAux_nat2 (x y : UInt8) :
   rw [h1, decAux_or8 _ _ hx, Nat.shiftRight_eq_div_pow]
   omega
 
+tolerant
 /-- `(uint32(b[0]) | uint32(b[1])<<8 | uint32(b[2])<<16 | uint32(b[3])<<24) >> 2` -/
 theorem decAux_nat4 (x b1 b2 b3 : UInt8) :
     (Go.cvt_u8_u32 x ||| Go.cvt_u8_u32 b1 <<< 8 ||| Go.cvt_u8_u32 b2 <<< 16 ||| Go.cvt_u8_u32 b3 <<< 24) >>> 2
@@ -116,6 +126,7 @@ theorem decAux_nat4 (x b1 b2 b3 : UInt8) :
   simp only [Nat.shiftLeft_eq, Nat.shiftRight_eq_div_pow, Nat.reducePow]
   omega
 
+tolerant
 /-- `u << 2` (in uint32, wrapping) -/
 theorem decAux_shl2 (u : Nat) : UInt32.ofNat u <<< 2 = UInt32.ofNat (u * 4) := by
   apply UInt32.toNat_inj.1
@@ -125,31 +136,39 @@ theorem decAux_shl2 (u : Nat) : UInt32.ofNat u <<< 2 = UInt32.ofNat (u * 4) := b
 
 /-! ## `float32(u)`, `float32(int32(u) - k)` -/
 
+tolerant
 /-- `float32(u)` for a uint32 `u` -/
 theorem decAux_real (u : Nat) (hu : u < 2 ^ 30) : Go.cvt_u32_f32 (UInt32.ofNat u) = F32.ofInt u := by
   rw [Go.cvt_u32_f32, UInt32.toNat_ofNat_of_lt' (by simp [UInt32.size]; omega)]
 
+tolerant
 theorem decAux_i32_sub (u : Nat) (k : Int32) (hu : u < 2 ^ 30) (hk0 : 0 ≤ k.toInt) (hk : k.toInt < 2 ^ 30) :
     (Go.cvt_u32_i32 (UInt32.ofNat u) - k).toInt = (u : Int) - k.toInt := by
   rw [Go.cvt_u32_i32, UInt32.toInt32_ofNat', Int32.toInt_sub, Int32.toInt_ofNat_of_lt (by omega)]
   apply Int.bmod_eq_of_le <;> omega
 
+tolerant
 /-- `float32(int32(u) - 64)` -/
 theorem decAux_coord1 (u : Nat) (hu : u < 2 ^ 30) :
     Go.cvt_i32_f32 (Go.cvt_u32_i32 (UInt32.ofNat u) - (64 : Int32)) = F32.ofInt ((u : Int) - 64) := by
   rw [Go.cvt_i32_f32, decAux_i32_sub u 64 hu (by decide) (by decide)]; rfl
 
+tolerant
 /-- `float32(int32(u) - 64*128)` -/
 theorem decAux_coord2 (u : Nat) (hu : u < 2 ^ 30) :
     Go.cvt_i32_f32 (Go.cvt_u32_i32 (UInt32.ofNat u) - (8192 : Int32)) = F32.ofInt ((u : Int) - 64 * 128) := by
   rw [Go.cvt_i32_f32, decAux_i32_sub u 8192 hu (by decide) (by decide)]; rfl
 
+tolerant
 theorem decAux_f32_64 : F32.ofInt 64 = ⟨0x42800000⟩ := by decide
+tolerant
 theorem decAux_f32_120 : F32.ofInt 120 = ⟨0x42f00000⟩ := by decide
+tolerant
 theorem decAux_f32_15120 : F32.ofInt 15120 = ⟨0x466c4000⟩ := by decide
 
 /-! ## the exponent mask of `isNaNOrInfinity` -/
 
+tolerant
 /-- `bits & 0x7f800000` is the exponent field, in place -/
 theorem decAux_expMask (n : Nat) : n &&& 0x7f800000 = (n / 0x800000 % 256) * 0x800000 := by
   have h := Nat.div_add_mod (n &&& 0x7f800000) (2 ^ 23)
@@ -161,6 +180,7 @@ theorem decAux_expMask (n : Nat) : n &&& 0x7f800000 = (n / 0x800000 % 256) * 0x8
 
 /-! ## facts about the model's `Dec.decodeNatural` -/
 
+tolerant
 /-- the model's `decodeNatural` returns a width 1, 2 or 4, a value below `2^30`, and the input without its
     first `n` bytes -/
 theorem decAux_decodeNatural_spec {b : Bytes} {u n : Nat} {rest : Bytes}
@@ -194,6 +214,7 @@ theorem decAux_decodeNatural_spec {b : Bytes} {u n : Nat} {rest : Bytes}
           obtain ⟨rfl, rfl, rfl⟩ := h
           simp; omega
 
+tolerant
 /-- the model's `decodeReal` leaves `b[n:]` for some `0 < n ≤ len b` -/
 theorem decAux_decodeReal_rest {b : Bytes} {v : F32} {rest : Bytes} (h : Dec.decodeReal b = some (v, rest)) :
     ∃ n, 0 < n ∧ n ≤ b.length ∧ rest = b.drop n := by
@@ -210,6 +231,7 @@ theorem decAux_decodeReal_rest {b : Bytes} {v : F32} {rest : Bytes} (h : Dec.dec
       simp only [Option.some.injEq, Prod.mk.injEq] at h
       exact h.2.symm
 
+tolerant
 /-- the model's `decodeCoordinate` leaves `b[n:]` for some `0 < n ≤ len b` -/
 theorem decAux_decodeCoordinate_rest {b : Bytes} {v : F32} {rest : Bytes} (h : Dec.decodeCoordinate b = some (v, rest)) :
     ∃ n, 0 < n ∧ n ≤ b.length ∧ rest = b.drop n := by
@@ -226,6 +248,7 @@ theorem decAux_decodeCoordinate_rest {b : Bytes} {v : F32} {rest : Bytes} (h : D
       simp only [Option.some.injEq, Prod.mk.injEq] at h
       exact h.2.symm
 
+tolerant
 /-- the model's `decodeZeroToOne` leaves `b[n:]` for some `0 < n ≤ len b` -/
 theorem decAux_decodeZeroToOne_rest {b : Bytes} {v : F32} {rest : Bytes} (h : Dec.decodeZeroToOne b = some (v, rest)) :
     ∃ n, 0 < n ∧ n ≤ b.length ∧ rest = b.drop n := by
